@@ -461,4 +461,42 @@ def run(tier: str) -> Run:
         for kd in kinds:
             r5.fail(inst + f' [{kd}]', loc(ffi), {'problems': [p_ for p_ in problems][:3], 'windows_reported': len(got_o) if got_o else None},
                     key=f'from-disk-chopper:{kd}:{"slower" if Fr(freq) < 14 else "faster-or-equal"}')
+
+    # ---- R7: histories ---------------------------------------------------------------------------------------------------
+    r7 = run.rule('R7', 'from_disk_chopper does not depend on the choppers expanded before: two-chopper histories in one world (module-level '
+                        'tables and caches persist; the first chopper is garbage when the second is made, so that its id() may be taken again): '
+                        'the windows of the second chopper are those a fresh interpreter reports', 5)
+    hist_cfgs = ((1, 28, 3, 2), (-1, 28, 3, 2), (1, 14, 3, 2), (1, 7, 3, 2), (1, 28, 3, 1))
+
+    def expand(wi_, wm_, cfg):
+        sign, freq, npulses, slits = cfg
+        b_, e_ = {2: ((10, 200), (40, 330)), 1: ((10,), (40,))}[slits]
+        kind_, ch_ = construct_chopper(wi_, wm_, cls, b_, e_, freq=sign * freq, beam=30, phase=400)
+        fp_ = sym_scalar(wi_, wm_, 'fp', Unit.named('Hz'), 14, positive=True)
+        kind_, res_ = call(wi_, ffi, [], {'disk_chopper': ch_, 'pulse_frequency': fp_, 'npulses': npulses})
+        if kind_ != 'return' or not isinstance(res_, SObj):
+            return (kind_, repr(res_)[:80])
+        o_, c_ = items_of(res_.attrs.get('time_open')), items_of(res_.attrs.get('time_close'))
+        if o_ is None or c_ is None:
+            return ('return', 'no arrays')
+        return ('return', tuple((Fr(wm_.value(x)), Fr(wm_.value(y))) for x, y in zip(o_, c_, strict=False)), len(o_), len(c_))
+    fresh_h = {}
+    for cfg in hist_cfgs:
+        T.reset()
+        wm_ = WitnessModel()
+        fresh_h[cfg] = expand(WitnessInterp(repo, wm_), wm_, cfg)
+    for second in hist_cfgs:
+        bad = []
+        for first in hist_cfgs:
+            T.reset()
+            wm_ = WitnessModel()
+            wi_ = WitnessInterp(repo, wm_)
+            expand(wi_, wm_, first)
+            wi_.objects.clear() if False else None
+            wi_.end_of_call()
+            got = expand(wi_, wm_, second)
+            if got != fresh_h[second]:
+                bad.append({'history': [str(first), str(second)], 'fresh': str(fresh_h[second])[:120], 'after_the_first': str(got)[:120]})
+        r7.check(not bad, f'(sense, |f| Hz, pulses, slits) = {second} after each of {len(hist_cfgs)} choppers', loc(ffi),
+                 {'histories_with_other_windows': len(bad), 'first': bad[:1]}, key=f'history:{second}')
     return run
